@@ -38,6 +38,7 @@ def coverage():
         se = []
         if P.get("vx_search"):
             se.append("`" + P["vx_search"]["bin"] + "`")
+        se += ["`" + e["bin"] + "`" for e in P.get("extra_searches", [])]
         se += ["`" + t["test"].split("::")[-1] + "` (in-crate)" for t in inr if t.get("kind") == "search"]
         level = P["level"] + (" (partial)" if P.get("level_prefix") else "")
         rows.append(f"| {pid} | {level} | {units} | {', '.join(k) or '—'} | {rp} | {', '.join(se) or '—'} |")
